@@ -33,6 +33,8 @@ def gen_cmds(rng):
         cmds.append(c)
         if rng.random() < 0.3:
             cmds[-1]["fail"] = True          # this command's append fails (fault injected by the harness)
+        if rng.random() < 0.25:
+            cmds[-1]["reopen"] = True        # the server restarts before this command: a new FileState is initialised on the journal
     return cmds
 
 
@@ -97,6 +99,10 @@ def run(out, tier, seed, gate):
         bounds = sorted(set(m["bounds"]))           # a failed append adds no boundary
         # what apply() left behind must load as exactly the commands whose append succeeded, numbered 0..n-1
         want_ok = [not c.get("fail") for c in j["cmds"]]
+        if m.get("reopen_failed"):
+            out.violation("reopen-%s" % j["id"], {"kind": "spec-monitor", "mode": "journal-make", "journal": j, "error": m["reopen_failed"], "file_hex": hexs(base),
+                                                 "what": "a journal written by apply() cannot be opened again by a restarted server (FileState::init fails on it)"})
+            continue
         if m["applied"] != want_ok:
             out.violation("apply-result-%s" % j["id"], {"kind": "spec-monitor", "mode": "journal-make", "journal": j, "applied": m["applied"],
                                                        "what": "apply() reported success for a command whose append failed, or failure for one that was written"})
